@@ -32,7 +32,7 @@ def main(tier, seed):
     rng = random.Random(seed + 7)
     nviol = 0
     # ---- (1) distances: caller arrays bit-for-bit unchanged; value independent of the call history
-    reps = 6 if tier == "quick" else 60
+    reps = 6 if tier == "quick" else 300
     mstats = dict(metrics=0, calls=0, zero_containing=0)
     names = sorted(d.DISTANCES)
     for name in names:
@@ -79,7 +79,7 @@ def main(tier, seed):
     from opfython.models.semi_supervised import SemiSupervisedOPF
     from opfython.models.knn_supervised import KNNSupervisedOPF
     from opfython.models.unsupervised import UnsupervisedOPF
-    nm = 24 if tier == "quick" else 400
+    nm = 24 if tier == "quick" else 2000
     mods = dict(runs=0, readonly=0)
     for i in range(nm):
         kind = ("sup", "semi", "knn", "unsup")[i % 4]
